@@ -99,10 +99,20 @@ class Adapter:
         try:
             main = write_files(case['files'], root)
             want = canon_spec(materialise.spec_of(L))
+            compiler = MalCompiler()
             try:
-                got = MalCompiler().compile(main)
+                got = compiler.compile(main)
             except Exception as e:
                 div('compile_raises', {'error': repr(e)[:300]})
+                return res
+            # a compiler object may be used again: the same source compiled a second time by the same object
+            try:
+                again = compiler.compile(main)
+                if first_diff(canon_spec(got), canon_spec(again)):
+                    div('second_compile_by_same_object_differs', {'at': first_diff(canon_spec(got), canon_spec(again))[0]})
+                    return res
+            except Exception as e:
+                div('second_compile_by_same_object_raises', {'error': repr(e)[:300]})
                 return res
             d = first_diff(want, canon_spec(got))
             if d:
